@@ -75,51 +75,51 @@ func init() {
 		return def
 	}
 	verifhook.Block = func(point string) {
-		if s := kernel.Current; s != nil {
+		if s := kernel.Cur(); s != nil {
 			s.BlockBegin(point)
 		}
 	}
 	verifhook.Unblock = func() {
-		if s := kernel.Current; s != nil {
+		if s := kernel.Cur(); s != nil {
 			s.BlockEnd()
 		}
 	}
 	verifhook.Spawn = func() int {
-		if s := kernel.Current; s != nil {
+		if s := kernel.Cur(); s != nil {
 			return s.Spawn()
 		}
 		return -1
 	}
 	verifhook.Enter = func(h int) {
-		if s := kernel.Current; s != nil {
+		if s := kernel.Cur(); s != nil {
 			s.Enter(h)
 		}
 	}
 	verifhook.Exit = func(h int, pv any) {
-		if s := kernel.Current; s != nil {
+		if s := kernel.Cur(); s != nil {
 			s.Exit(h, pv)
 		} else if pv != nil {
 			panic(pv)
 		}
 	}
 	verifhook.Held = func(delta int) {
-		if s := kernel.Current; s != nil {
+		if s := kernel.Cur(); s != nil {
 			s.Held(delta)
 		}
 	}
 	verifhook.SelB = func(point string, k int) {
-		if s := kernel.Current; s != nil {
+		if s := kernel.Cur(); s != nil {
 			s.SelBegin(point, k)
 		}
 	}
 	verifhook.SelN = func(i, k int) int {
-		if s := kernel.Current; s != nil {
+		if s := kernel.Cur(); s != nil {
 			return s.SelNext(i, k)
 		}
 		return i
 	}
 	verifhook.Yield = func(point string) {
-		if s := kernel.Current; s != nil {
+		if s := kernel.Cur(); s != nil {
 			s.Yield(kernel.KindLock, point, true)
 		}
 	}
@@ -286,6 +286,12 @@ func drawSpec(t *kernel.Tape, o Opts, sys resolve.System) (*uni.Spec, []uni.Ref,
 // RunC05 runs one simulated scenario for C05.
 func RunC05(t *kernel.Tape, o Opts) *Result {
 	res := &Result{Prop: "C05", Status: "ok"}
+	serialStalled = false
+	defer func() {
+		if serialStalled {
+			res.Status, res.Violations = "stalled", nil
+		}
+	}()
 	sys := []resolve.System{resolve.NPM, resolve.Maven, resolve.PyPI}[t.Choose(3)]
 	sname := sysNames[sys]
 	spec, roots, source := drawSpec(t, o, sys)
@@ -521,7 +527,7 @@ func RunC05(t *kernel.Tape, o Opts) *Result {
 				continue
 			}
 			bc := &boundedClient{inner: spec.BuildClient(nil), max: 4000}
-			g, err, pv := resolveOnce(newResolver(sys, bc), ctx, spec.VK(r.P, r.V))
+			g, err, pv := serialResolve(t, newResolver(sys, bc), ctx, spec.VK(r.P, r.V))
 			if bc.over {
 				return nil, nil, false
 			}
@@ -556,7 +562,7 @@ func RunC05(t *kernel.Tape, o Opts) *Result {
 			if i >= 3 {
 				break
 			}
-			resolveOnce(pr, ctx, preludeSpec.VK(r.P, r.V))
+			serialResolve(t, pr, ctx, preludeSpec.VK(r.P, r.V))
 		}
 		fault(res, "foreign_prelude", 1)
 	}
@@ -594,7 +600,7 @@ func RunC05(t *kernel.Tape, o Opts) *Result {
 			if withResolves {
 				for _, r := range interim {
 					bc := &boundedClient{inner: c, max: 3000}
-					resolveOnce(newResolver(sys, bc), ctx, spec.VK(r.P, r.V))
+					serialResolve(t, newResolver(sys, bc), ctx, spec.VK(r.P, r.V))
 					if bc.over {
 						return nil, false
 					}
@@ -649,7 +655,7 @@ func RunC05(t *kernel.Tape, o Opts) *Result {
 					continue
 				}
 				bc := &boundedClient{inner: fSpec.BuildClient(nil), max: 3000}
-				g, err, pv := resolveOnce(newResolver(fSys, bc), ctx, fSpec.VK(op.Root.P, op.Root.V))
+				g, err, pv := serialResolve(t, newResolver(fSys, bc), ctx, fSpec.VK(op.Root.P, op.Root.V))
 				if bc.over {
 					res.Status = "budget"
 					res.Config = sname + "/ref-budget"
@@ -1175,6 +1181,7 @@ func indexOfSys(s resolve.System) int {
 // boundedClient fails every call after max calls (used for the serial
 // reference resolutions, which run outside the scheduler).
 type boundedClient struct {
+	mu     sync.Mutex // the code under test may call its client from several goroutines
 	inner  resolve.Client
 	n      int
 	max    int
@@ -1183,6 +1190,8 @@ type boundedClient struct {
 }
 
 func (b *boundedClient) tick(kind string) error {
+	b.mu.Lock()
+	defer b.mu.Unlock()
 	b.n++
 	b.byKind[0]++
 	b.byKind[callKindIndex(kind)]++
